@@ -765,7 +765,7 @@ func c19Deposit(g *rng, total uint64) sdk.Int {
 		return sdk.NewIntFromUint64(1 << 63).SubRaw(int64(g.intn(2)))
 	case 10:
 		return sdk.NewInt(int64(1 + g.intn(40)))
-	case 11, 12:
+	case 11, 12, 13, 14:
 		// an 18-decimals token: allocations between 2^53 and 2^63, where binary64 has a spacing of 2 .. 1024
 		// and the float-based share of a farmer can be rounded above the allocation
 		switch g.intn(4) {
